@@ -325,7 +325,7 @@ def find_loop(func, kind=ast.For):
     return loops[0]
 
 
-def _memo_lifetime(f, memo):
+def _memo_lifetime(f, memo, prog=None):
     """'local' when the memo handed to deepcopy is a dictionary created inside this call; 'persistent' when it is a parameter with a mutable default,
     an attribute or a global; 'unknown' otherwise"""
     def fresh(v):
@@ -337,6 +337,7 @@ def _memo_lifetime(f, memo):
     if isinstance(memo, ast.Name):
         a = f.node.args
         pos = a.posonlyargs + a.args
+        pos_names = [x.arg for x in pos]
         defaults = dict(zip([x.arg for x in pos[len(pos) - len(a.defaults):]], a.defaults))
         defaults.update({x.arg: d for x, d in zip(a.kwonlyargs, a.kw_defaults) if d is not None})
         stores = [n for n in ast.walk(f.node) if isinstance(n, ast.Assign) and any(isinstance(t, ast.Name) and t.id == memo.id for t in n.targets)]
@@ -345,7 +346,29 @@ def _memo_lifetime(f, memo):
             d = defaults.get(memo.id)
             if d is not None and (isinstance(d, (ast.Dict, ast.List, ast.Set)) or (isinstance(d, ast.Call) and dump(d.func) in ("dict", "list", "set"))):
                 return "persistent"
-            return "unknown"
+            # a parameter (default None, replaced by a fresh dictionary inside): as long-lived as what the callers inside the class hand in
+            if not ((d is None or (isinstance(d, ast.Constant) and d.value is None)) and (not stores or all(fresh(s_.value) for s_ in stores))) or prog is None or f.cls is None:
+                return "unknown"
+            verdict = "local"
+            for g in f.cls.methods.values():
+                for c in ast.walk(g.node):
+                    if not (isinstance(c, ast.Call) and isinstance(c.func, ast.Attribute) and c.func.attr == f.name and dump(c.func.value) == "self"):
+                        continue
+                    kws_, stars_ = kwargs_of(c)
+                    pos = [x for x in pos_names if x != "self"]
+                    arg = kws_.get(memo.id) or (c.args[pos.index(memo.id)] if memo.id in pos and pos.index(memo.id) < len(c.args) else None)
+                    if arg is None or (isinstance(arg, ast.Constant) and arg.value is None) or fresh(arg):
+                        continue
+                    if not isinstance(arg, ast.Name):
+                        return "persistent" if isinstance(arg, ast.Attribute) else "unknown"
+                    asg = [n for n in ast.walk(g.node) if isinstance(n, ast.Assign) and any(isinstance(t_, ast.Name) and t_.id == arg.id for t_ in n.targets)]
+                    if not asg or not all(fresh(n.value) for n in asg):
+                        return "unknown"
+                    loops = [lp for lp in ast.walk(g.node) if isinstance(lp, (ast.For, ast.While)) and any(x is c for x in ast.walk(lp))]
+                    if any(not any(x is n for n in asg for x in ast.walk(lp)) for lp in loops):
+                        # created once outside a loop that calls reset() on every turn: the second turn gets the first turn's copies
+                        return "persistent"
+            return verdict
         if stores and all(fresh(s_.value) for s_ in stores):
             return "local"
         if not stores:
@@ -472,7 +495,24 @@ def run(prog, rep, tier):
                 kws.setdefault(p_, a)
             for k in ("ngen", "lbook"):
                 v = kws.get(k)
-                if isinstance(v, ast.Name) and v.id == k:
+                # the parameter handed on must still be the caller's: a rebinding inside evolve() changes how many generations / which logbook every replicate gets
+                rebinds = [s_ for s_ in walk_no_nested(evo.node) if isinstance(s_, (ast.Assign, ast.AugAssign))
+                           and any(isinstance(t_, ast.Name) and t_.id == k for t_ in (s_.targets if isinstance(s_, ast.Assign) else [s_.target]))]
+                if isinstance(v, ast.Name) and v.id == k and rebinds:
+                    rb = rebinds[0]
+                    val = rb.value if isinstance(rb, ast.Assign) else None
+                    only_none = isinstance(val, ast.IfExp) and isinstance(val.test, ast.Compare) and len(val.test.ops) == 1 and isinstance(val.test.ops[0], (ast.Is, ast.IsNot)) \
+                        and dump(val.test.left) == k and isinstance(val.test.comparators[0], ast.Constant) and val.test.comparators[0].value is None \
+                        and dump(val.body if isinstance(val.test.ops[0], ast.IsNot) else val.orelse) == k
+                    if only_none:
+                        rep.ok("R2-handoff", evo.qualname + "#advance." + k, "advance(%s=%s); only None is replaced by a default" % (k, k))
+                    elif isinstance(val, ast.BoolOp) and isinstance(val.op, ast.Or) and dump(val.values[0]) == k:
+                        rep.violate("R2-handoff", evo.qualname, "%s is rebound to `%s` before it is handed to advance(): every falsy value - in particular %s = 0 - is replaced, so a "
+                                    "run of zero generations executes %s generations per replicate" % (k, dump(val), k, dump(val.values[-1])), where(evo, rb),
+                                    "%s handed on unchanged (replace None only: `x if %s is None else %s`)" % (k, k, k), dump(rb)[:60])
+                    else:
+                        rep.unrec("R2-handoff", evo.qualname, "%s is rebound (%s) before it is handed to advance()" % (k, dump(rb)[:50]))
+                elif isinstance(v, ast.Name) and v.id == k:
                     rep.ok("R2-handoff", evo.qualname + "#advance." + k, "advance(%s=%s)" % (k, k))
                 elif v is None:
                     rep.violate("R2-handoff", evo.qualname, "advance() is not given %s" % k, where(evo, n), k, "absent")
@@ -503,9 +543,9 @@ def run(prog, rep, tier):
                         # a memo dictionary must not outlive this call: a memo hit returns the copy made by an EARLIER reset()
                         memo = v.args[1] if len(v.args) > 1 else next((k.value for k in v.keywords if k.arg == "memo"), None)
                         if memo is not None and not (isinstance(memo, ast.Constant) and memo.value is None):
-                            verdict = _memo_lifetime(rst, memo)
+                            verdict = _memo_lifetime(rst, memo, prog)
                             if verdict == "persistent":
-                                rep.violate("R3-reset", rst.qualname, "%s is deep-copied with the memo %s, which persists across calls of reset() (mutable default / attribute / global): "
+                                rep.violate("R3-reset", rst.qualname, "%s is deep-copied with the memo %s, which persists across calls of reset() (mutable default / attribute / global / created once outside the replicate loop): "
                                             "every later reset() gets memo hits and hands back the working container of the first replicate" % (fld, dump(memo)), where(rst, st),
                                             "copy.deepcopy(self.start_%s) or a memo created inside reset()" % fld, dump(v))
                                 done[fld] = False
